@@ -437,9 +437,11 @@ m("C10-backup-inplace", "C10", [(CACHE,
 m("C10-rename-other-dir", "C10", [(SPEC,
   "\terr = renameIn(dir, filepath.Base(tmp.Name()), filepath.Base(s.path), overwrite)",
   "\terr = renameIn(filepath.Dir(dir), filepath.Join(filepath.Base(dir), filepath.Base(tmp.Name())), filepath.Join(filepath.Base(dir), filepath.Base(s.path)), overwrite)")], "rename addressed from the parent directory")
-b("benign-C10-keep-tmp-on-failure", ["C10"], [(SPEC,
+# filed as benign (for C10: a left-over temp file is never loadable) until rule C16.5
+# temp-removed-on-failed-rename existed: it breaks C16 ("touches nothing else")
+m("C16-temp-left-after-failed-rename", "C16", [(SPEC,
   "\tif err != nil {\n\t\t_ = os.Remove(tmp.Name())\n\t\terr = fmt.Errorf(\"failed to write Spec file: %w\", err)\n\t}",
-  "\tif err != nil {\n\t\terr = fmt.Errorf(\"failed to write Spec file: %w\", err)\n\t}")], "a left-over temp file is never loadable (extension)")
+  "\tif err != nil {\n\t\terr = fmt.Errorf(\"failed to write Spec file: %w\", err)\n\t}")], "a failed write leaves its temporary file behind in the Spec directory")
 b("benign-C10-close-error-checked", ["C10"], [(SPEC,
   "\t_, err = tmp.Write(data)\n\t_ = tmp.Close()\n\tif err != nil {",
   "\t_, err = tmp.Write(data)\n\tif cerr := tmp.Close(); err == nil {\n\t\terr = cerr\n\t}\n\tif err != nil {")], "close error propagated as well")
